@@ -138,6 +138,9 @@ func cutsFor(fr *ref.Frame, n int, t *rapid.T) []int {
 			}
 		}
 	}
+	for p := range bufferSizedCuts(fr, n) {
+		set[p] = true
+	}
 	for i := 0; i < 64; i++ {
 		set[rapid.IntRange(1, n-1).Draw(t, "interior")] = true
 	}
@@ -149,11 +152,78 @@ func cutsFor(fr *ref.Frame, n int, t *rapid.T) []int {
 	return cuts
 }
 
+// bufferSizedCuts: inside every field larger than 64 KiB, the offsets 2^k (+-1), k >= 16: where a reader that fills a
+// block-sized or pooled buffer first and reads the rest separately would see a read of zero bytes.
+func bufferSizedCuts(fr *ref.Frame, n int) map[int]bool {
+	set := map[int]bool{}
+	for _, f := range fr.Fields {
+		for k := 1 << 16; k < f.Len; k <<= 1 {
+			for d := -1; d <= 1; d++ {
+				if p := f.Off + k + d; p >= 1 && p < n {
+					set[p] = true
+				}
+			}
+		}
+	}
+	return set
+}
+
+// TestC06Pinned: frames with multi-megabyte fields (a skippable frame of more than 1 MiB in front, legacy blocks of
+// incompressible data stored in more than 8 MiB, 4 MiB raw blocks), cut at the buffer-sized offsets inside those fields,
+// at the field boundaries +-1 and a few interior points; all reader configurations.
+func TestC06Pinned(t *testing.T) {
+	rec := stat.For("C06")
+	rec.SetRule(c06Rule)
+	cases := []c06Case{
+		{Opts: wopts{BS: 4, Conc: 1, ContentSum: true}, Data: gen.Data{Segs: []gen.Seg{{K: "text", N: 3000, S: 1, P: 4}}}, Skip: []int{1<<20 + 5}},
+		{Opts: wopts{BS: 4, Conc: 1}, Data: gen.Data{Segs: []gen.Seg{{K: "text", N: 100, S: 2, P: 4}}}, Skip: []int{3, 3 << 20}},
+		{Opts: wopts{BS: 4, Conc: 1, Legacy: true}, Data: gen.Data{Segs: []gen.Seg{{K: "rand", N: 8<<20 + 100, S: 3}}}},
+		{Opts: wopts{BS: 4, Conc: 1, Legacy: true}, Data: gen.Data{Segs: []gen.Seg{{K: "text", N: 8 << 20, S: 4, P: 4}, {K: "rand", N: 8 << 20, S: 5}, {K: "text", N: 70000, S: 6, P: 3}}}},
+		{Opts: wopts{BS: 7, Conc: 1, BlockSum: true, ContentSum: true}, Data: gen.Data{Segs: []gen.Seg{{K: "rand", N: 4<<20 + 70000, S: 7}}}},
+	}
+	if thorough() {
+		cases = append(cases, c06Case{Opts: wopts{BS: 4, Conc: 1, Legacy: true}, Data: gen.Data{Segs: []gen.Seg{{K: "rand", N: 24<<20 + 5, S: 8}}}})
+	}
+	for i, c := range cases {
+		if i%nshards != shard {
+			continue
+		}
+		c.Del = delivery{}
+		fz, f := buildC06Frame(c)
+		if f != nil {
+			judge(t, "C06", "C06/cut", c, f)
+			return
+		}
+		set := bufferSizedCuts(fz.fr, len(fz.z))
+		for _, fl := range fz.fr.Fields {
+			for _, p := range []int{fl.Off - 1, fl.Off, fl.Off + 1, fl.Off + fl.Len/3, fl.Off + fl.Len - 1} {
+				if p >= 1 && p < len(fz.z) {
+					set[p] = true
+				}
+			}
+		}
+		cuts := make([]int, 0, len(set))
+		for p := range set {
+			cuts = append(cuts, p)
+		}
+		sort.Ints(cuts)
+		for _, cut := range cuts {
+			for _, r := range []rcfg{{Conc: 1, Sizes: []int{64 << 20}}, {Conc: 1, WriteTo: true, Seeker: true}, {Conc: 2, Sizes: []int{65536}, Seeker: true}, {Conc: 4, WriteTo: true}} {
+				cc := c
+				cc.Cut, cc.R = cut, r
+				judge(t, "C06", "C06/cut", cc, safelyCut(cc, fz, rec))
+			}
+		}
+		rec.Class("pinned/multi-megabyte-fields")
+	}
+}
+
 const c06Rule = "rapid-drawn frames (full option matrix incl. legacy, Write partitions with Flush) whose every prefix is read: all prefix lengths 1..len-1 for " +
 	"frames up to 4 KiB (1.5 KiB in quick), every structural boundary +-3 bytes plus 64 sampled interior points for larger ones, each with 6 reader " +
 	"configurations (concurrency 1/2/4 x Read with large, 7-byte, 4095-byte buffers or WriteTo). Oracle: non-nil error other than io.EOF and delivered bytes " +
 	"are a prefix of the content. Legacy: cuts on a block boundary are skipped (the format cannot detect them). Non-trivial = every cut (it leaves zero bytes of " +
-	"the next field or falls inside a field); distinct by (frame, cut, reader)."
+	"the next field or falls inside a field); distinct by (frame, cut, reader). Inside fields larger than 64 KiB the offsets 2^k+-1 are cut points too; pinned frames with " +
+	"multi-megabyte fields (skippable frames of 1 MiB+5 and 3 MiB in front, legacy blocks stored in more than 8 MiB, 4 MiB raw blocks)."
 
 func TestC06(t *testing.T) {
 	rec := stat.For("C06")
